@@ -51,7 +51,7 @@ REAL_VS_STUB = {
              'CPython allocator / gc / weakref callbacks'],
     'stub_or_simulator_owned': ['class universe', 'GC timing (disabled; injected)', 'cache capacity (hook knob)', 'history (choice tape)'],
 }
-EXPECTED_PROBES = ('cache:miss', 'cache:hit', 'cache:evicted', 'cache:cap-full', 'address-reused', 'address-reused-other-kind',
+EXPECTED_PROBES = ('address-reused-of-last-classified', 'cache:miss', 'cache:hit', 'cache:evicted', 'cache:cap-full', 'address-reused', 'address-reused-other-kind',
                    'step:churn', 'step:set_cap', 'step:sortcmp', 'step:onelevel', 'sort:first-failed', 'sort:both-failed')
 
 V = _C._verif if hasattr(_C, '_verif') else None
@@ -211,6 +211,7 @@ def run_job(job, io):
     live = []  # [cls, shape, make_inst, situation]
     freed_ids = {}  # id -> kind (True = was namedtuple) of a class we created and confirmed dead
     counter = [0]
+    last_checked = [None]
     cap = [4096]
     max_cap = [4096]
     default_cap = bool(job.get('default_cap'))
@@ -229,6 +230,8 @@ def run_job(job, io):
     def new_class(shape):
         counter[0] += 1
         c, mk = make_class(shape, counter[0])
+        if id(c) == last_checked[0]:
+            probes['address-reused-of-last-classified'] += 1
         if id(c) in freed_ids:
             probes['address-reused'] += 1
             was_nt = freed_ids.pop(id(c))
@@ -244,6 +247,7 @@ def run_job(job, io):
 
     def check_class(ent, site):
         c, shape, mk, sit = ent
+        last_checked[0] = id(c)
         try:
             inst = mk() if mk is not None else NOARG
         except Exception:  # noqa: BLE001
@@ -352,14 +356,21 @@ def run_job(job, io):
             n = 1 + tape.draw(3 * min(cap[0], 64) if not default_cap else 3 * 4096 + 1, 'churn-n')
             if default_cap:
                 n = 4096 + 64 + tape.draw(200, 'churn-extra')
-            oplog.append('churn:%d' % n)
+            # batch = how many transient classes are alive together before they are freed.  With batch 1 a freed class's
+            # address is reused by the very next class (the allocator is LIFO), i.e. the class classified LAST is replaced
+            # by a class of another kind that is asked about NEXT — per-"last answer" memos are only visible that way;
+            # larger batches exercise the table / eviction / cap paths (glibc's tcache holds 7 chunks, so with batches
+            # of 8 the last-freed chunk is never the first one reused).
+            bsize = (1, 1, 2, 3, 8, 8)[tape.draw(6, 'churn-batch')] if not default_cap else 512
+            oplog.append('churn:%d/%d' % (n, bsize))
             batch = []
             for j in range(n):
                 shape = ('nt', 'tuple_plain', 'nt_sub', 'fields_list', 'plain', 'nt')[j % 6] if tape.draw(2, 'churn-kind') == 0 or default_cap else SHAPES[j % len(SHAPES)]
                 ent = new_class(shape)
                 check_class(ent, 'churn')
                 batch.append(ent)
-                if len(batch) >= 8 or default_cap and len(batch) >= 512:
+                ent = None  # the loop variable must not keep the class alive across the collection below
+                if len(batch) >= bsize:
                     pend = []
                     while batch:
                         live.append(batch.pop())
